@@ -593,10 +593,13 @@ Fixpoint cut_points_ord_from (me mb : N) (comp full : sfile) (l : log) (ord : of
     else
       let by_idx := match ord_by_ordinal ord known ordinal with OSome sq => frame_at l sq | _ => None end in
       let from_msgs := nth_error (messages (replay_fast full l)) (N.to_nat (ordinal - 1)) in
-      let '(m_opt, rp1, ld1) := match by_idx with
-                                | Some m => (Some m, replayed, loaded)
-                                | None => (from_msgs, true, true)
-                                end in
+      (* C04-F3 fix in /repo: when the message list of the replay is in hand ([loaded]: the index has just failed its
+         validation for the count) the index is not consulted for the look-up either *)
+      let '(m_opt, rp1, ld1) := if loaded then (from_msgs, true, true)
+                                else match by_idx with
+                                     | Some m => (Some m, replayed, loaded)
+                                     | None => (from_msgs, true, true)
+                                     end in
       match m_opt with
       | Some m =>
         let '(best, rp2) := ckpt_lookup me mb comp full l rp1 (fseq m) in
@@ -614,6 +617,39 @@ Definition cut_points_ord (me mb : N) (comp full : sfile) (l : log) (ord : ofile
   let latest := (count / stride) * stride in
   (count, if latest =? 0 then []
           else cut_points_ord_from me mb comp full l ord known stride latest 0 rp ld (N.to_nat (clamp_limit limit))).
+
+(* the route before the C04-F3 fix: the ordinal index was asked for every ordinal even after its count had been rejected *)
+Fixpoint cut_points_ord_from_unfixed (me mb : N) (comp full : sfile) (l : log) (ord : ofile) (known : N -> bool)
+         (stride latest : N) (i : N) (replayed loaded : bool) (n : nat) : list cutpoint :=
+  match n with
+  | O => []
+  | S n' =>
+    let ordinal := latest - i * stride in
+    if ordinal =? 0 then []
+    else
+      let by_idx := match ord_by_ordinal ord known ordinal with OSome sq => frame_at l sq | _ => None end in
+      let from_msgs := nth_error (messages (replay_fast full l)) (N.to_nat (ordinal - 1)) in
+      let '(m_opt, rp1, ld1) := match by_idx with
+                                | Some m => (Some m, replayed, loaded)
+                                | None => (from_msgs, true, true)
+                                end in
+      match m_opt with
+      | Some m =>
+        let '(best, rp2) := ckpt_lookup me mb comp full l rp1 (fseq m) in
+        mk_cut_point ordinal m best :: cut_points_ord_from_unfixed me mb comp full l ord known stride latest (i + 1) rp2 ld1 n'
+      | None => cut_points_ord_from_unfixed me mb comp full l ord known stride latest (i + 1) rp1 ld1 n'
+      end
+  end.
+
+Definition cut_points_ord_unfixed (me mb : N) (comp full : sfile) (l : log) (ord : ofile) (known : N -> bool)
+           (stride limit : N) : N * list cutpoint :=
+  let '(count, rp, ld) := match ord_count ord (mr_last_of l) with
+                          | OSome n => (n, false, false)
+                          | _ => (nlen (messages (replay_fast full l)), true, true)
+                          end in
+  let latest := (count / stride) * stride in
+  (count, if latest =? 0 then []
+          else cut_points_ord_from_unfixed me mb comp full l ord known stride latest 0 rp ld (N.to_nat (clamp_limit limit))).
 
 (* ---------- continuities/index.json: default-thread recovery (find_latest_continuity_for_workspace) ----------
    the continuity_created frames of the whole log, in log order: (timestamp_ms, thread id, workspace key) *)
